@@ -6,6 +6,7 @@ import Gql.Proofs.RootNodes
 import Gql.Proofs.StreamOrder
 import Gql.Proofs.PayloadNest
 import Gql.Proofs.StreamQueue
+import Gql.Proofs.ProtoRelabel
 import Gql.Async.EnvOk
 /-!
 # C05 — The incremental payload stream obeys the delivery protocol
@@ -15,7 +16,8 @@ Property theorems only.  Models: `Gql.Async.WorkQueue` (work_queue.py), `Gql.Asy
 pipeline over an environment history is `Gql.Async.payloads σ π fuel work history`
 (`Sys.start` / `Sys.tick` / `Sys.run`).  Spec: `Gql.Spec.Protocol` (clause predicates and
 the decision procedure `check` / `protocolOk`).  Helper lemmas: `Gql/Proofs/{Publisher,
-WorkQueue,Sys,StreamQueue}.lean`.
+WorkQueue,Sys,StreamQueue}.lean`; for the whole validator `Gql/Proofs/{ProtoAccept,ProtoPub,
+ProtoRun,ProtoFinal,ProtoRelabel}.lean`.
 
 All theorems quantify over *every* static environment (groups, parents, task modes, paths),
 *every* initial work, *every* history (list of ticks of graph events) and *every* fuel value;
@@ -154,14 +156,15 @@ theorem stream_queue_in_order (n : Nat) (held : Option SQEntry) (entries : List 
     sqDelivered (sqRun n held entries) <+: sqFinal (heldList held ++ entries) :=
   sqRun_prefix n held entries
 
-/-! ## Full statements of the clauses that are decided per explored stream, not proved
+/-! ## The whole validator: the original full statement
 
-`check` (the decision procedure) covers them on every stream the harness explores; the
-statements below are what a complete proof would establish for all well-formed histories. -/
+`protocol_prefix_full` is the statement as it was first written down.  It is *false* as stated
+(`protocol_prefix_full_fails` below: it forgets to constrain the labels of the streams); with
+that hypothesis added it is proved (`protocol_prefix`, `protocol_prefix_unlabelled`). -/
 
 /-- P1–P7 without the data-dependent halves, for every well-formed environment history: the
 validator accepts the emitted stream as a legal prefix (labels = group numbers, nesting = the
-parent relation). -/
+parent relation).  Kept as written; see `protocol_prefix_full_fails` and `protocol_prefix`. -/
 def protocol_prefix_full : Prop :=
   ∀ (σ : Static) (π : PubStatic) (parents : List (Nat × Nat)) (fuel : Nat) (work : Option Work)
     (h : List Tick),
@@ -399,6 +402,147 @@ theorem p3b_defer_full_fails : ¬ p3b_defer_full := by
   have := h kfStatic kfPub kfInit 8 kfWork kfHistory kf_envOk kf_dataOk ⟨.P3b, 1, 2⟩ (by decide)
   exact this rfl
 
+/-! ## The whole validator accepts every well-formed history -/
+
+/-- **P1, second half (an id is announced before any data for it) and the O1 shape of
+`completed`.**  For every well-formed environment history: every `incremental` entry carries an
+id that this or an earlier payload announced, and every `completed` entry carries such an id or
+is a *failed* completion (observation O1).  Behind it: the roots of the scheduler are always
+inside the publisher's id table (`Cover`, the converse of `scheduler`'s `DomInv`), every event
+that reports values or success concerns a root (`evsPre_final`), so `_ensure_id` finds the id
+instead of minting one, and every id in the table is an announced id (`TableAnn`). -/
+theorem data_only_for_announced (σ : Static) (π : PubStatic) (fuel : Nat) (work : Option Work)
+    (h : List Tick) (hok : envOk σ fuel work h = true) :
+    ∀ pre pl post, payloads σ π fuel work h = pre ++ pl :: post →
+      (∀ x ∈ pl.incremental, x.id ∈ announcedIds (pre ++ [pl])) ∧
+      (∀ c ∈ pl.completed, c.id ∈ announcedIds (pre ++ [pl]) ∨ c.failed = true) := by
+  intro pre pl post e
+  have := (payloads_dataAnnounced σ π fuel work h hok).split pre pl post e
+  simpa using this
+
+/-- **P5 at the payload level, streams labelled.**  `nested_never_pending_with_enclosing` for
+environments whose streams carry labels too, as long as a stream's label does not occur in the
+nesting relation (`LabelsS σ π`: groups are labelled by their own number; a stream label is
+neither a nested group nor the parent of one).  The payload stream depends on the labels only
+through the `label` field of the `pending` entries (`payloads_rel`), so the statement is carried
+over from the environment with the stream labels erased. -/
+theorem nested_never_pending_labelled_streams (σ : Static) (π : PubStatic) (L : LabelsS σ π) (fuel : Nat)
+    (work : Option Work) (h : List Tick) (hok : envOk σ fuel work h = true) (k : Nat)
+    (hk : k < (payloads σ π fuel work h).length) :
+    ∀ a ∈ pendEntries ((payloads σ π fuel work h).take (k + 1)),
+    ∀ b ∈ pendEntries ((payloads σ π fuel work h).take (k + 1)),
+    ∀ ga gb, a.label = some ga → b.label = some gb →
+      a.id ∉ completedIds ((payloads σ π fuel work h).take (k + 1)) → ¬ Anc σ ga gb :=
+  payload_nesting_S σ π L fuel work h hok k hk
+
+/-- **P1–P7 without the data-dependent halves: the executable validator accepts the payload
+stream of every well-formed history as a legal prefix** (`checkPrefix false … = none`; labels =
+group numbers, nesting = the parent relation, stream labels outside the nesting relation:
+`LabelsS σ π` — in particular unlabelled streams, `Labels π`, and the direct harness' `100 + s`).
+This is `protocol_prefix_full` with the one hypothesis it lacks (see
+`protocol_prefix_full_fails`), for any initial data.  Every clause of `checkPrefix false` is
+reached: P7 (`hasNext_only_last_false`), P1/P2 in `announce` (`announced_increasing`,
+`ids_never_reused`), P1/P3a in `applyIncr` (`data_only_for_announced`,
+`no_data_after_completion`), P4a/P1 in `complete` (`completed_at_most_once`,
+`data_only_for_announced`), P5 in `nestingOk` (`nested_never_pending_labelled_streams`; the
+validator's `ancestorLabel` is the scheduler's `Anc` — `ancestorLabel_anc`), P4b at the last
+payload (`complete_stream_all_completed`).  The assembly is `streamOk_of_facts` (the per-clause
+facts give `StreamOk`) and `checkPrefix_of_streamOk` (an invariant `VInv` of the validator state
+— open entries = announced and not completed, `used` = announced ∪ completed — is kept by every
+payload that satisfies `PayloadOk`, and implies no rejection).  What `checkPrefix false` skips
+and this theorem therefore does not cover: P3b (refuted on the model, `p3b_defer_full_fails`)
+and the data-level half of P6 (model-level P6 is `stream_items_in_order`). -/
+theorem protocol_prefix (σ : Static) (π : PubStatic) (parents : List (Nat × Nat)) (fuel : Nat)
+    (work : Option Work) (h : List Tick) (initData : J)
+    (hok : envOk σ fuel work h = true)
+    (hpar : ∀ g p, σ.parent g = some p ↔ (g, p) ∈ parents) (L : LabelsS σ π) :
+    checkPrefix false (enclByLabels parents) initData (payloads σ π fuel work h) = none := by
+  apply checkPrefix_of_streamOk
+  apply streamOk_of_facts
+  · exact (announced_once σ π fuel work h hok)
+  · exact ids_never_reused σ π fuel work h
+  · exact no_data_after_completion σ π fuel work h
+  · exact completed_at_most_once σ π fuel work h
+  · exact payloads_dataAnnounced σ π fuel work h hok
+  · exact hasNext_only_last_false σ π fuel work h
+  · intro k hk a ha b hb hnc
+    cases henc : enclByLabels parents a b with
+    | false => rfl
+    | true =>
+      obtain ⟨ga, gb, hla, hlb, hanc⟩ := enclByLabels_anc σ parents hpar a b henc
+      exact absurd hanc
+        (payload_nesting_S σ π L fuel work h hok k hk a ha b hb ga gb hla hlb hnc)
+  · intro p hp hn
+    exact complete_stream_all_completed σ π fuel work h hok p hp hn
+
+/-- **Complete streams.**  For every well-formed history whose stream ended (some payload carries
+`hasNext = false`), the validator for *complete* streams — `check false`, the data-free part of
+the oracle `protocolOk` that the end-to-end runs use — accepts the payload stream: in addition to
+`protocol_prefix`, the last payload carries `hasNext = false` and leaves nothing pending. -/
+theorem protocol_complete (σ : Static) (π : PubStatic) (parents : List (Nat × Nat)) (fuel : Nat)
+    (work : Option Work) (h : List Tick) (initData : J)
+    (hok : envOk σ fuel work h = true)
+    (hpar : ∀ g p, σ.parent g = some p ↔ (g, p) ∈ parents) (L : LabelsS σ π)
+    (p : Payload) (hp : p ∈ payloads σ π fuel work h) (hn : p.hasNext = false) :
+    check false (enclByLabels parents) initData (payloads σ π fuel work h) = none := by
+  apply check_of_streamOk
+  · apply streamOk_of_facts
+    · exact (announced_once σ π fuel work h hok)
+    · exact ids_never_reused σ π fuel work h
+    · exact no_data_after_completion σ π fuel work h
+    · exact completed_at_most_once σ π fuel work h
+    · exact payloads_dataAnnounced σ π fuel work h hok
+    · exact hasNext_only_last_false σ π fuel work h
+    · intro k hk a ha b hb hnc
+      cases henc : enclByLabels parents a b with
+      | false => rfl
+      | true =>
+        obtain ⟨ga, gb, hla, hlb, hanc⟩ := enclByLabels_anc σ parents hpar a b henc
+        exact absurd hanc
+          (payload_nesting_S σ π L fuel work h hok k hk a ha b hb ga gb hla hlb hnc)
+    · intro p hp hn
+      exact complete_stream_all_completed σ π fuel work h hok p hp hn
+  · exact ⟨p, (hasNext_false_is_final σ π fuel work h p hp hn).2, hn⟩
+
+/-- `protocol_prefix` for unlabelled streams, in the shape of `protocol_prefix_full`. -/
+theorem protocol_prefix_unlabelled (σ : Static) (π : PubStatic) (parents : List (Nat × Nat)) (fuel : Nat)
+    (work : Option Work) (h : List Tick)
+    (hok : envOk σ fuel work h = true)
+    (hpar : ∀ g p, σ.parent g = some p ↔ (g, p) ∈ parents) (hg : ∀ g, π.glabel g = some g)
+    (hs : ∀ s, π.slabel s = none) :
+    checkPrefix false (enclByLabels parents) .null (payloads σ π fuel work h) = none :=
+  protocol_prefix σ π parents fuel work h .null hok hpar (Labels.toS ⟨hg, hs⟩ σ)
+
+/-- `protocol_prefix_full` as stated is **false**, for a reason that has nothing to do with the
+code: it constrains the labels of the groups (`π.glabel g = some g`) but not those of the
+streams.  Witness: group 1 nested in group 0 (`parents = [(1, 0)]`); the initial work is the
+root group 0 and a root stream whose label is `1`.  The initial result announces both; the
+validator's label-based nesting test takes the stream entry (label 1) for the fragment nested
+in group 0 and reports P5.  In a validated document this cannot happen (rule "defer/stream
+labels are unique": a stream's label is never the label of a deferred fragment); the direct
+harness labels stream `s` with `100 + s`.  `protocol_prefix` is the statement with the missing
+hypothesis (`LabelsS`: a stream's label does not occur in the nesting relation). -/
+theorem protocol_prefix_full_fails : ¬ protocol_prefix_full := by
+  intro hfull
+  have := hfull
+    { parent := fun g => if g = 1 then some 0 else none, tgroups := fun _ => [0], mode := fun _ => .async }
+    { gpath := fun _ => [], glabel := fun g => some g, spath := fun _ => [], slabel := fun _ => some 1 }
+    [(1, 0)] 8 (some { groups := [0], tasks := [0], streams := [5] }) [] (by decide)
+    (by
+      intro g p
+      constructor
+      · intro hp
+        by_cases hg : g = 1
+        · subst hg; simp at hp; subst hp; simp
+        · simp [hg] at hp
+      · intro hm
+        simp at hm
+        obtain ⟨rfl, rfl⟩ := hm
+        simp)
+    (fun _ => rfl)
+  revert this
+  decide
+
 /-! ## Non-vacuity -/
 
 /-- A three-level nested history: group 0 (root) ← 1 ← 2; task `k` belongs to group `k` and its
@@ -431,6 +575,21 @@ def exHistory : List Tick :=
     [.taskSuccess 2 (exResult 2 none)] ]
 
 example : Labels exPub := ⟨fun _ => rfl, fun _ => rfl⟩
+example : LabelsS exStatic exPub := Labels.toS ⟨fun _ => rfl, fun _ => rfl⟩ exStatic
+/-- `LabelsS` with labelled streams (the harness convention `100 + s`). -/
+example : LabelsS exStatic { exPub with slabel := fun s => some (100 + s) } := by
+  refine ⟨fun _ => rfl, ?_⟩
+  intro s l hl
+  simp only [Option.some.injEq] at hl
+  subst hl
+  refine ⟨?_, ?_⟩
+  · show exParent (100 + s) = none
+    unfold exParent
+    split <;> first | rfl | omega
+  intro x hx
+  simp only [exStatic] at hx
+  unfold exParent at hx
+  split at hx <;> simp at hx <;> omega
 
 /-- The example history is a well-formed environment … -/
 example : envOk exStatic 8 exWork exHistory = true := by decide
@@ -442,6 +601,16 @@ example : (payloads exStatic exPub 8 exWork exHistory).length = 4 ∧
     check false (enclByLabels [(1, 0), (2, 1)]) .null (payloads exStatic exPub 8 exWork exHistory) = none ∧
     ((payloads exStatic exPub 8 exWork exHistory).map (·.hasNext)) = [true, true, true, false] := by
   decide
+
+/-- `protocol_prefix` is not vacuous: the example history meets all its hypotheses (`envOk`
+above, `Labels exPub` above, the parent list below), and so does the O1 history below. -/
+example : ∀ g p, exStatic.parent g = some p ↔ (g, p) ∈ [(1, 0), (2, 1)] := by
+  intro g p
+  match g with
+  | 0 => simp [exStatic, exParent]
+  | 1 => simp [exStatic, exParent]; exact eq_comm
+  | 2 => simp [exStatic, exParent]; exact eq_comm
+  | (n + 3) => simp [exStatic, exParent]
 
 /-- O1 (DESIGN §7) as a lemma about the model: a task shared by a root group and a nested,
 not yet announced group fails; the publisher emits `completed` for id 1, which was never
